@@ -6,6 +6,7 @@ import (
 
 	"github.com/superfly/litefs/verifharness/core"
 	"github.com/superfly/litefs/verifharness/dbreplay"
+	"github.com/superfly/litefs/verifharness/faults"
 	"github.com/superfly/litefs/verifharness/sim"
 	"github.com/superfly/litefs/verifharness/t3"
 	"github.com/superfly/litefs/verifharness/twowriters"
@@ -24,6 +25,8 @@ func main() {
 	// two connections on one database: a second writer asks for the write lock while the first one's release
 	// is capturing its transaction (WalRelease.tla)
 	dbreplay.Post = func() {
+		// failure paths (spec/Faults.tla): every call of the operation through the OS interface fails once
+		faults.Run(rep, args, faults.Select{Ops: []string{"wal_commit"}, Monitors: []string{"image", "effect"}})
 		twowriters.Stage(rep, args, "C03")
 		t3.Stage(rep, args, map[string]bool{"C03": true})
 	}
